@@ -100,6 +100,7 @@ CF_CFG = """CONSTANTS
   TxByIdChecked = %s
   EntryIdentChecked = %s
   SetHdrChecked = %s
+  StreamIdentChecked = %s
 INIT Init
 NEXT Next
 CHECK_DEADLOCK FALSE
@@ -115,7 +116,7 @@ def client_flow(chk, wd, thorough):
     os.makedirs(sub)
     tf = lambda n: "TRUE" if vlib.model_flag(n) else "FALSE"
     res = vlib.run_tlc("ClientFlow", "cf.cfg", workdir=sub, workers=1, timeout=3000,
-                       files=[("cf.cfg", CF_CFG % (k, out, tf("C01_TxByIdChecked"), tf("C01_EntryIdentChecked"), tf("C01_SetHdrChecked")))])
+                       files=[("cf.cfg", CF_CFG % (k, out, tf("C01_TxByIdChecked"), tf("C01_EntryIdentChecked"), tf("C01_SetHdrChecked"), tf("C01_StreamIdentChecked")))])
     vlib.tlc_must_pass(res, "ClientFlow K=%d" % k)
     chk.add_tlc(res, "ClientFlow K=%d" % k)
     facts = {}
@@ -132,7 +133,7 @@ def client_flow(chk, wd, thorough):
     chk.cov["model_facts"]["ClientFlow"] = {"Complete": True, "Sound": facts.get("Sound") == [True], "cases": (facts.get("cases") or [0])[0], "K": k}
     o, _ = vlib.run_harness(binp, ["-cases", out, "-dir", os.path.join(wd, "cfd")], timeout=3000)
     r = json.loads(o)
-    for need in ("op:get0", "op:getAt", "op:getRef", "op:txbyid", "op:set", "accepted-altered", "rejected"):
+    for need in ("op:get0", "op:getAt", "op:getRef", "op:txbyid", "op:set", "op:sget0", "op:sgetRef", "accepted-altered", "rejected"):
         if not (r.get("counters") or {}).get(need):
             raise MachineryFault("client flow replay is vacuous: counter %s is zero" % need)
     vlib.absorb(chk, r)
